@@ -278,6 +278,13 @@ func (b *SimBucket) PutXattr(key, path string, val []byte) {
 }
 
 // PutDoc seeds a document body.
+// DropXattrs removes every extended attribute of a document (it stays, bare).
+func (b *SimBucket) DropXattrs(key string) {
+	if d := b.docs[key]; d != nil {
+		d.xattrs = map[string][]byte{}
+	}
+}
+
 func (b *SimBucket) PutDoc(key string, val []byte) {
 	d := b.get(key)
 	if d == nil {
